@@ -62,3 +62,7 @@ claim("C12",
   "Decides exactly-once discharge for 33 owners of a one-shot obligation (API/AIO enqueue and their wrappers, Dispatch, the kernel's SQE/CQE loops, the AddOnRequest wrapper, every subsystem and plugin Enqueue (true iff sent), store/router/echo/sender/plugin workers, the Done closure, the simulated AIO flush, the front-end reply channel of capacity 1): on every go/cfg path the obligation is invoked or handed to exactly one consumer, boolean consumers discharging on their true edge only; Loop returns only under Done(); Done's definitions; serve's stop order. Reports known finding F14 (unsynchronised shutdown flag). Not decided: arrival patterns, goroutine scheduling, gocoro's scheduler.",
   "path-count dataflow over {0,1,>=2} on go/cfg with select statements rewritten per clause and edge-sensitive boolean consumers; lock-scope check for the shutdown flag",
   "DESIGN.md §5 C12")
+claim("C13",
+  "Decides a set of targeted crash-freedom obligations (explicit flows only): every switch over a closed kernel enum whose default panics is exhaustive; every pointer filled by a JSON decoder from stored client bytes in the router/sender/plugin workers is nil-tested before use and not asserted on; every access to a member of the store Result union matches the submission's command list or is under a Kind test; no Must-style helper is applied to run-time data; every util.Assert over request fields in a request coroutine is implied by what each front end and the shared search helper (including its cursor path) validates before submitting; protobuf sub-messages are nil-tested before field access; unwrapped error causes are nil-tested; SQL text is constant; cursors are decoded only with signature verification. Not decided: oversized bodies, stalls, library internals, control-dependent flows.",
+  "typed AST rules with dominance/guard recognition: enum exhaustiveness, decode-target nil-guard check, Result-union access vs abstractly evaluated command lists, assertion-to-validation implication over front-end request literals (binding tags, early-return guards, helper returns)",
+  "DESIGN.md §5 C13")
